@@ -151,6 +151,10 @@ OPERATORS = [
      "low end moved to the next leaf starts at its second entry"),
     ("findend-left-offset", "break", ["C02"], T, r"\*offset = pbucket->len - 1;", "*offset = pbucket->len;",
      "high end moved left lands behind the last entry"),
+    ("range-wiring-flag", "break", ["C02"], T, r"BTree_findRangeEnd\(self, max, 0, excludemax,", "BTree_findRangeEnd(self, max, 0, excludemin,",
+     "the high end is searched with the low end's exclusion flag"),
+    ("range-wiring-end", "break", ["C02"], T, r"BTree_findRangeEnd\(self, min, 1, excludemin,", "BTree_findRangeEnd(self, min, 0, excludemin,",
+     "the low bound is searched as a high end"),
     ("c-maxkey-offset", "break", ["C02"], T, r"        offset = bucket->len - 1;\n", "        offset = bucket->len;\n",
      "maxKey() without a bound reads behind the last entry"),
     ("c-minmax-end", "break", ["C02"], T, r"BTree_findRangeEnd\(self, key, min, 0, &bucket, &offset\)",
